@@ -242,7 +242,15 @@ Styled == <<
   [text |-> "schema: '1.2'\ncontents:\n  - >-\n    dir/\n    e.fga\n",                       ok |-> TRUE,  values |-> <<"dir/ e.fga">>, nerr |-> 0],      \* folded: the line break reads as a blank
   [text |-> "schema: '1.2'\ncontents:\n  - ? a.fga\n",                                       ok |-> FALSE, values |-> <<>>, nerr |-> 1],
   [text |-> "schema: |-\n  1.2\ncontents:\n  - a.fga\n",                                     ok |-> TRUE,  values |-> <<"a.fga">>, nerr |-> 0],
-  [text |-> "contents:\n- &p \"dir%2Fb.fga\"\n- 'q.fga'\nschema: \"1.2\"\n",                 ok |-> TRUE,  values |-> <<"dir/b.fga", "q.fga">>, nerr |-> 0] >>
+  [text |-> "contents:\n- &p \"dir%2Fb.fga\"\n- 'q.fga'\nschema: \"1.2\"\n",                 ok |-> TRUE,  values |-> <<"dir/b.fga", "q.fga">>, nerr |-> 0],
+  \* aliases of whole lists - a list that contains itself included (a YAML reader hands such a node over as it is): an alias is
+  \* no list and no string, nothing is expanded, and the call returns
+  [text |-> "schema: '1.2'\ncontents: &all [*all]\n",                                       ok |-> FALSE, values |-> <<>>, nerr |-> 1],
+  [text |-> "schema: '1.2'\ncontents: &all\n  - core.fga\n  - *all\n",                       ok |-> FALSE, values |-> <<>>, nerr |-> 1],
+  [text |-> "base: &b\n  - a.fga\nschema: '1.2'\ncontents: *b\n",                            ok |-> FALSE, values |-> <<>>, nerr |-> 1],
+  [text |-> "schema: '1.2'\ncontents:\n  - &l [a.fga]\n  - *l\n",                            ok |-> FALSE, values |-> <<>>, nerr |-> 2],
+  [text |-> "schema: &s '1.2'\ncontents:\n  - *s\n",                                         ok |-> FALSE, values |-> <<>>, nerr |-> 1],
+  [text |-> "schema: '1.2'\ncontents: &c\n  - a.fga\nextra: *c\n",                           ok |-> TRUE,  values |-> <<"a.fga">>, nerr |-> 0] >>
 StyledInit == st \in 1..Len(Styled)
 StyledNext == st > 0 /\ st' = 0 - st /\ PrintT(ToJson([rec |-> "styled"] @@ Styled[st]))
 StyledOK == TRUE
